@@ -34,23 +34,27 @@ func (e *lBCDEncoder) Decode(src []byte, length int) ([]byte, int, error) {
 		return nil, 0, fmt.Errorf("length should be positive, got %d", length)
 	}
 
-	decodedLen := length
-	if length%2 != 0 {
-		decodedLen += 1
-	}
-
-	read := bcd.EncodedLen(decodedLen)
-
-	dec := bcd.NewDecoder(bcd.Standard)
-	dst := make([]byte, decodedLen)
+	// how many bytes we will read: two digits per byte, an odd number of
+	// digits takes a filler digit (computed without overflowing int)
+	read := length/2 + length%2
 
 	if len(src) < read {
 		return nil, 0, fmt.Errorf("not enough data to decode. expected len %d, got %d", read, len(src))
 	}
 
-	_, err := dec.Decode(dst, src[:read])
+	// for BCD encoding the length should be even
+	decodedLen := 2 * read
+
+	dec := bcd.NewDecoder(bcd.Standard)
+	dst := make([]byte, decodedLen)
+	n, err := dec.Decode(dst, src[:read])
 	if err != nil {
 		return nil, 0, utils.NewSafeError(err, "failed to perform BCD decoding")
+	}
+
+	// a filler nibble in the last byte decodes to a single digit
+	if n != decodedLen {
+		return nil, 0, utils.NewSafeError(bcd.ErrBadBCD, "failed to perform BCD decoding")
 	}
 
 	// because it's left aligned, we return data from
